@@ -399,6 +399,18 @@ impl<H: Host> ZXController<H> {
     #[cfg(not(all(feature = "sound", feature = "ay")))]
     fn select_ay_reg(&mut self, _: u8) {}
 
+    /// Applies value written to the ULA port (border color, MIC and EAR bits).
+    /// Does not perform any bus activity, emulated time is not changed
+    pub(crate) fn write_ula_port(&mut self, data: u8) {
+        self.set_border_color(self.frame_clocks, ZXColor::from_bits(data & 0x07));
+        #[cfg(feature = "sound")]
+        {
+            let mic = data & 0x08 != 0;
+            let ear = data & 0x10 != 0;
+            self.mixer.beeper.change_state(ear, mic);
+        }
+    }
+
     pub(crate) fn set_border_color(
         &mut self,
         #[cfg(feature = "precise-border")] clocks: usize,
@@ -611,13 +623,7 @@ impl<H: Host> Z80Bus for ZXController<H> {
             // ULA is selected by any even address, also when the same address
             // selects AY chip as well (A15 is set and A1 is reset)
             if port & 0x0001 == 0 {
-                self.set_border_color(self.frame_clocks, ZXColor::from_bits(data & 0x07));
-                #[cfg(feature = "sound")]
-                {
-                    let mic = data & 0x08 != 0;
-                    let ear = data & 0x10 != 0;
-                    self.mixer.beeper.change_state(ear, mic);
-                }
+                self.write_ula_port(data);
             }
             if port & 0xC002 == 0xC000 {
                 self.select_ay_reg(data);
